@@ -380,7 +380,7 @@ func runCase(sk *node, c class) *vlib.Outcome {
 		return o
 	}
 	var bad []mismatch
-	unexplained := 0
+	unexplained, kf1, kf2 := 0, 0, 0
 	var classes []string
 	for _, cd := range cands {
 		in := cd.in
@@ -395,6 +395,7 @@ func runCase(sk *node, c class) *vlib.Outcome {
 		classes = append(classes, in.root.op+"→"+valueClass(cd.v))
 		_, nopt := in.print(style{par: parMin})
 		kfApplies := in.hasUnaryOnIndex()
+		negZeroOut, negZeroApplies := in.negativeZeroQuirk()
 		for _, st := range styles(c, nopt) {
 			// printer self-test: the printed form read with the stated table is the tree itself
 			src, _ := in.print(st)
@@ -425,6 +426,13 @@ func runCase(sk *node, c class) *vlib.Outcome {
 					qs.quirk = true
 					qgot, _ := render(build(pos, in, qs), in.leaves)
 					explained = qgot == got
+					if explained {
+						kf1++
+					}
+				}
+				if !explained && negZeroApplies && pos.name != "index" && got == negZeroOut {
+					explained = true
+					kf2++
 				}
 				if !explained {
 					unexplained++
@@ -447,7 +455,11 @@ func runCase(sk *node, c class) *vlib.Outcome {
 				o.Counters["traced_renders"]++
 				o.Counters["renders"]++
 				if got != cd.v.String() || fmt.Sprint(tr) != fmt.Sprint(cd.trace) {
-					unexplained++
+					if negZeroApplies && got == negZeroOut && fmt.Sprint(tr) == fmt.Sprint(cd.trace) {
+						kf2++ // KF-C08-2 also shows when the leaves are function calls
+					} else {
+						unexplained++
+					}
 					bad = append(bad, mismatch{in.canon(), cd.v.String(), st.String(), "print (leaves are calls k(i) that log i)", show(r.src), nil,
 						fmt.Sprintf("%s, evaluated leaves %v", got, tr), fmt.Sprintf("%s, evaluated leaves %v", cd.v.String(), cd.trace)})
 				}
@@ -478,7 +490,11 @@ func runCase(sk *node, c class) *vlib.Outcome {
 	d, _ := json.Marshal(bad)
 	o.Detail = json.RawMessage(d)
 	if unexplained == 0 {
+		// vlib accepts one id per case; name the finding that explains most of the differing renders
 		o.Known = "KF-C08-1"
+		if kf2 > kf1 {
+			o.Known = "KF-C08-2"
+		}
 	}
 	return o
 }
@@ -552,7 +568,7 @@ func main() {
 			"trees larger than the tier's bound, and leaf assignments other than the rotations of the fixed pools, are not explored",
 		},
 		QuickDeadline:    150,
-		ThoroughDeadline: 1300,
+		ThoroughDeadline: 840,
 		Run:              run,
 		Extra: func(tier string, cov map[string]interface{}) {
 			var b []string
